@@ -86,12 +86,10 @@ def s_query(s):
 
 
 def classify_oob(o):
+    """Since the repairs of KF-C04-1/2 no out-of-bounds access is attributed to a known root cause."""
     site = SITE.get(o["site"], "site%d" % o["site"])
-    if o["tainted"]:
-        return f"oob:{site}:off-grid-jump"
-    if o["site"] == 5 and o["op"] in (24, 25) and o["ctrue"] != U64MAX and o["clen"] > o["ctrue"] and o["ongrid"]:
-        return "oob:const:stale-constants-len:global-name-imm16"
-    return f"oob:{site}:unclassified"
+    where = "off-grid" if o["tainted"] else ("stale-constants-len" if o["ctrue"] != U64MAX and o["clen"] > o["ctrue"] else "on-grid")
+    return f"oob:{site}:{where}"
 
 
 def run(ctx):
@@ -105,11 +103,9 @@ def run(ctx):
     proved = ctx.prove("C04", extracted=["OpcodeNumbering", "VerifierTable", "DispatchSites"])
     if ctx.tier == "thorough" and proved:
         ctx.coqchk("C04")
-    ctx.cov["refuted_lemmas"] = [
-        "verified_exec_in_bounds (full statement): refuted by C04_jump_into_cache_word_refuted",
-        "frame invariant preserved by every call path: refuted by C04_stale_constants_len_refuted",
-        "from_u8 accepts only discriminants: refuted by C04_from_u8_gap",
-    ]
+    ctx.cov["refuted_lemmas"] = []
+    ctx.cov["history"] = ("before the fix commits for KF-C04-1/2/3 the full statement was refuted (jump into a cache word, stale constants_len, "
+                          "from_u8 gap); it is now the theorem C04_verified_exec_in_bounds; the former witnesses run first as regression cases")
     # ---- facts the harness and the hook rely on, taken from the translator (not hard-coded)
     import extract
     extract.load_plugins()
@@ -117,15 +113,17 @@ def run(ctx):
     model_ok = True                  # ties need the model files; the direct oracle (search for a failing input) never does
     gap_lo, gap_hi = 1, 0
     try:
-        ops, bound, _ = x.parse_opcodes()
+        ops, _ranges, _ = x.parse_opcodes()
         names = dict(ops)
         disc = {v for _, v in ops}
-        gaps = [b for b in range(bound + 1) if b not in disc]
-        gap_lo, gap_hi = (min(gaps), max(gaps)) if gaps else (1, 0)
-        if gaps and gaps != list(range(gap_lo, gap_hi + 1)):
-            ctx.broken.append("harness assumption: from_u8 gap bytes are no longer one contiguous range")
+        # bytes below the largest discriminant that are not opcodes: functions carrying one on the grid are verified in a
+        # child process, whatever from_u8 currently does with them
+        undecl = [b for b in range(max(disc) + 1) if b not in disc]
+        gap_lo, gap_hi = (min(undecl), max(undecl)) if undecl else (1, 0)
+        if undecl and undecl != list(range(gap_lo, gap_hi + 1)):
+            ctx.broken.append("harness assumption: the undeclared opcode bytes are no longer one contiguous range")
             gap_lo, gap_hi = 1, 0
-        table, _order, skip, _mx = x.parse_verifier()
+        table, _order, skip, _mx, _jg = x.parse_verifier()
         if sorted(names[n] for n in skip) != [77, 78, 104]:
             ctx.broken.append("hook assumption: the verifier's skip set is no longer {77, 78, 104} (verif_sites::on_grid hard-codes it)")
     except extract.ExtractError as e:
@@ -209,11 +207,11 @@ def run(ctx):
             elif verdict.startswith("gap:"):
                 stats["gap"] += 1
                 child = verdict[4:]
-                obs = {"reject": "11", "accept": "12"}.get(child, "10")
+                obs = {"reject": "0", "accept": "1"}.get(child, "10")
                 if child not in ("reject", "accept"):
                     ctx.violation("crash:verifier:from_u8-gap-byte",
-                                  f"verify_function kills the process ({child}) on an opcode byte in {gap_lo}..{gap_hi}: "
-                                  "OpCode::from_u8 transmutes a byte that is not a discriminant",
+                                  f"verify_function kills the process ({child}) on an opcode byte in {gap_lo}..{gap_hi} that is not a "
+                                  "declared opcode (OpCode::from_u8 must return None for it)",
                                   {"profile": prof, "spec": d["spec"], "tag": d["tag"]})
             else:
                 ctx.violation("verifier:unexpected-outcome:" + verdict, f"verifier call ended with {verdict}",
@@ -222,7 +220,7 @@ def run(ctx):
             vcases.append((f"verdict {term}", obs))
             vmeta.append(d)
             distinct.add("V" + d["spec"])
-        eq = ("Definition veq (m o : N) : bool := if o <? 2 then m =? o else if o =? 11 then (m =? 0) || (m =? 2) else m =? 2.")
+        eq = ("Definition veq (m o : N) : bool := if o <? 2 then m =? o else m =? 2.")
         fails, err = vlib.coq_eval_cases("c04v", IMPORTS, "fun x => x", "veq", vcases, shard=120, extra_defs=eq) if model_ok else ([], None)
         tot_eval += len(vcases)
         if err:
@@ -245,11 +243,18 @@ def run(ctx):
             d = specs.get(case, {})
             if xr["cls"].startswith("panic:"):
                 sig = xr["cls"] if xr["cls"].startswith("panic:type-confusion") else "panic:" + re.sub(r"[^a-z]+", "-", xr["cls"][6:].lower())[:40]
-                if xr["offgrid"]:
-                    sig += ":off-grid-jump"
                 ctx.violation(sig, f"executing a verifier-accepted function panicked: {xr['cls']}",
                               {"profile": prof, "spec": d.get("spec"), "tag": d.get("tag")})
-            if xr["unresolved"] and not xr["offgrid"]:
+            if xr["offgrid"]:
+                ctx.violation("exec:off-grid-instruction",
+                              "an accepted function executed a word that is not an instruction start of the verifier's linear layout",
+                              {"profile": prof, "spec": d.get("spec"), "tag": d.get("tag")})
+            if xr["stale"]:
+                ctx.violation("frame:stale-constants-len",
+                              f"{xr['stale']} instructions ran with a loop-local constants_len different from the length of the constant "
+                              "table behind constants_ptr (a frame switch did not refresh it)",
+                              {"profile": prof, "spec": d.get("spec"), "tag": d.get("tag")})
+            if xr["unresolved"]:
                 ctx.violation("frame:code-pointers-not-owned-by-frame-function",
                               "the running frame's bytecode/constants pointers do not belong to the function object it names",
                               {"profile": prof, "spec": d.get("spec"), "tag": d.get("tag")})
@@ -292,7 +297,7 @@ def run(ctx):
                        "index (incl. len, len+1, -1), opcode byte of a cache word rewritten + jump into it, num_registers changed, stream "
                        "truncated / extended, operand or opcode byte rewritten, constants/upvalue descriptors changed, wrapped in 1-3 or "
                        "62-67 closure-calling wrappers (Call / CallCached), GetGlobal/SetGlobal with a small imm16 inside a wrapper, "
-                       "pure random words, opcode from the from_u8 gap; verdict equality with the Coq verifier on every function; every "
+                       "pure random words, undeclared opcode byte 122..129 on the grid (verified in a child process); verdict equality with the Coq verifier on every function; every "
                        "accepted one executed under a 1500-instruction budget with the site log: all logged accesses checked against "
                        "their true buffer length, first 24 + last 2 instructions compared with the Coq footprint. "
                        "distinct = distinct function specs + distinct (state, word, log) triples")
